@@ -1095,6 +1095,10 @@ class Model:
                     if not len(d) == 2:
                         continue
 
+                    # An equation between elements does not relate the whole arrays
+                    if d[0].shape != eq.shape or d[1].shape != eq.shape:
+                        continue
+
                     # Check with substitute, which is a more expensive operation
                     if ca.substitute(eq, d[0], d[1]).is_zero():
                         return d, False
